@@ -127,6 +127,22 @@ class TfyFlaky(Tfy):
         return super().tagify()
 
 
+class TfyListSub(Tfy):
+    """tagify() returns an instance of a user-defined TagList *subclass*"""
+
+    def tagify(self):
+        h = H()
+        res = super().tagify()
+        if h not in _LISTSUB:
+            _LISTSUB[h] = type("RowList", (h.TagList,), {})
+        if isinstance(res, h.TagList):
+            return _LISTSUB[h](*res)
+        return res
+
+
+_LISTSUB: dict = {}
+
+
 class TfyRepr(Tfy):
     """Tagifiable *and* self-rendering."""
 
@@ -222,6 +238,12 @@ def _build(r: Any, memo: Any = None):
     if k == "none":
         return None
     if k == "repr":
+        if r.get("inst"):
+            # _repr_html_ bound on the instance (functools.partial / SimpleNamespace style objects)
+            import types
+
+            text = r["s"]
+            return types.SimpleNamespace(_repr_html_=lambda: text)
         if r.get("iter"):
             return ReprIter(r["s"], bool(r.get("h")))
         return Repr(r["s"], bool(r.get("h")))
@@ -241,6 +263,8 @@ def _build(r: Any, memo: Any = None):
             return TfyIter(r["res"], bool(r.get("raw")))
         if v == "flaky":
             return TfyFlaky(r["res"], id(r))
+        if v == "listsub":
+            return TfyListSub(r["res"], bool(r.get("raw")))
         if v == "tagsub":
             return _tagsub_class()(r["res"])
         if v == "flex":
